@@ -1,26 +1,12 @@
 #!/bin/sh
-# saves the confirmed seeded changes of one batch (runs the full suite for each)
 cd "$(dirname "$(readlink -f "$0")")"
 S() { SAVE=$1 NEEDS="$4" ./seedcheck.sh $2 $3 2>&1 | head -1 | cut -c1-200; }
-S C08-1 C08 /tmp/mut-C08-out/1 "created destination left without header (all-zero file) although copy reports success||missing destination and a window with nothing to copy"
-S C08-2 C08 /tmp/mut-C08-out/2 "chained propagation left unrepaired: only archive i+1 re-read after a write||archive 0 differs, archive 1 matches after propagation, source archive 2 is not the aggregate of its finer points and the destination already held that value"
-S C08-3 C08 /tmp/mut-C08-out/3 "-copy-nan cannot clear a slot (NaN points skipped in archiveUpdateMany)||copy -copy-nan with a source hole over a destination value"
-S C09-1 C09 /tmp/mut-C09-out/1 "glob verdict reset by a later clean file||glob with >=2 matches, differing file sorts before a clean last file"
-S C09-2 C09 /tmp/mut-C09-out/2 "remote missing file becomes a failure (404 with text body decoded as a header)||server URL as source, file missing on the remote side"
-S C09-3 C09 /tmp/mut-C09-out/3 "archives after the first absent series never compared (break instead of continue)||-archive N>=1 or a window entirely older than archive 0's retention, with real differences in coarser archives"
-S C10-1 C10 /tmp/mut-C10-out/1 "hole in the first matched file poisons the slot (NaN accumulator stays NaN)||NaN hole in the lexically first file where another file has a value"
-S C10-2 C10 /tmp/mut-C10-out/2 "differing layouts accepted when the fetched windows coincide (layout OR window check)||two files whose layouts differ but whose selected window lies inside both retentions"
-S C10-3 C10 /tmp/mut-C10-out/3 "item<->directory mapping breaks for a non-canonical base directory (TrimPrefix instead of Rel)||base directory spelled with a trailing slash, // or /./"
-S C11-1 C11 /tmp/mut-C11-out/1 "sum-diff verdict forgotten when a later item compares clean||>=2 items, deviating item not the last"
-S C11-2 C11 /tmp/mut-C11-out/2 "re-fetch of the destination shadowed: coarser archives diffed against the stale destination||destination agreeing in a coarser slot but missing a finer point in it"
-S C11-3 C11 /tmp/mut-C11-out/3 "created destination left zero-filled without header||absent destination and a sum that is all NaN in the window"
-S C16-1 C16 /tmp/mut-C16-out/1 "flush/sync/close errors of the -text-out file swallowed (shadowed err in the deferred finish)||text output that cannot be written, e.g. /dev/full"
-S C16-2 C16 /tmp/mut-C16-out/2 "nil dereference panic in the deferred destDB.Close when the destination cannot be opened||copy/sum-copy to a corrupt destination or below a regular file"
-S C16-3 C16 /tmp/mut-C16-out/3 "copy/sum-copy report success without Sync when the coarsest archive has nothing to copy||finer-only differences (or -archive 0 / -archive 1)"
-S C18-1 C18 /tmp/mut-C18-out/1 "timestamps printed in local time with a literal Z||process time zone other than UTC"
-S C18-2 C18 /tmp/mut-C18-out/2 "archive id shifted in view output (nil series skipped in PointsList)||window beyond archive 0's retention or -archive N>0"
-S C18-3 C18 /tmp/mut-C18-out/3 "raw dump garbled after the 341st slot (4096-byte chunking)||archive with more than 341 slots"
-S C20-1 C20 /tmp/mut-C20-out/1 "coarser slot containing the finer archive's oldest point gets a free random value||generation instant at particular alignments (e.g. unix%5==4 for 1s->5s)"
-S C20-2 C20 /tmp/mut-C20-out/2 "archives written coarsest first: propagation overwrites the generated coarse values||aggregation method other than sum"
-S C20-3 C20 /tmp/mut-C20-out/3 "now dropped from the archive writes: the library re-reads the clock per archive||a step boundary passing between sampling the generation time and writing an archive (clock tick inside generate)"
-S C04-1 C04 /tmp/mut-C04-out/1 "retention edge taken from the file, not the archive||explicit finer archive, window older than / straddling that archive's retention"
+S C12-1 C12 /tmp/mut-C12-out/1 "server reuses one response buffer across requests: overlapping requests corrupt each other's responses||overlapping requests for different files (diff with both bases remote, or parallel clients)"
+S C12-2 C12 /tmp/mut-C12-out/2 "/sum handler takes the clock from until: remote sum differs from local||explicit -until earlier than now with a window touching an archive's retention boundary"
+S C12-3 C12 /tmp/mut-C12-out/3 "remote glob list parsed with strings.Fields: names containing whitespace are split||a matched file or item name containing a space"
+S C15-1 C15 /tmp/mut-C15-out/1 "ExpectedFileSize computed in 32 bits: a short file claiming 0x15555556 points is accepted by Open and a raw dump allocates gigabytes||points count whose product with 12 wraps 32 bits"
+S C15-2 C15 /tmp/mut-C15-out/2 "Points.TakeFrom bound replaced by int(count) < 0: count*12 wraps 64 bits and makeslice panics in the view-raw client||hostile response with a 64-bit count of 2^63/12 or more"
+S C15-3 C15 /tmp/mut-C15-out/3 "aggregation method validation accepts Mix and Percentile: first propagating update panics||aggregation byte damaged from 3 to 7 (one flipped bit) in a file with two or more archives"
+S C17-1 C17 /tmp/mut-C17-out/1 "reusable per-archive read buffer stored on the handle: concurrent fetches overwrite each other's bytes||two concurrent fetches of the same archive with different windows on one handle"
+S C17-2 C17 /tmp/mut-C17-out/2 "sum workers append results in completion order (under a mutex): header, float sum order and messages depend on the schedule||three or more files with non-integer values, or differing metadata"
+S C17-3 C17 /tmp/mut-C17-out/3 "response buffer returned to a sync.Pool while the handler is still writing it||overlapping requests, a slow or large response"
